@@ -109,8 +109,15 @@ pub fn run_real(case: &Case, prog: &Program) -> RealRun {
 fn make_case(p: &FlowProg, v: Variant, stack: &[u64], script: &[u64]) -> Case {
     let (src, lib) = render(p, v);
     let mut c = Case::new(src).with_stack(stack).with_advice(script);
+    let mut modules = vec![];
+    if flow::uses_call(p) {
+        modules.push(("lib::c".to_string(), flow::call_lib_src()));
+    }
     if let Some(l) = lib {
-        c.libs.push(LibSrc { namespace: "lib".into(), modules: vec![("lib::m".into(), l)] });
+        modules.push(("lib::m".into(), l));
+    }
+    if !modules.is_empty() {
+        c.libs.push(LibSrc { namespace: "lib".into(), modules });
     }
     c
 }
@@ -351,6 +358,10 @@ fn run_one(rng: &mut Rng8, rep: &mut Report, idx: usize) {
     for (imp, loc) in &refo.execs {
         rep.count("exec_kind", &format!("{}-{}", if *imp { "imported" } else { "local" }, if *loc { "locals" } else { "nolocals" }));
     }
+    if refo.fail.is_none() {
+        rep.count_n("call_leaves", "executed", refo.calls as u64);
+        rep.count_n("call_leaves", "inside-exec-of-imported-procedure", refo.calls_in_imported as u64);
+    }
     rep.count("max_decision_depth", &refo.decisions.iter().map(|d| d.depth).max().unwrap_or(0).to_string());
     rep.count("stack_depth_in", &depth.to_string());
     let _ = placed;
@@ -499,6 +510,7 @@ pub fn run(cfg: &Cfg) -> Report {
         rep.floor(rep.get_count("pairs", k) >= 20, &format!("pairs-{k}"));
     }
     rep.floor(rep.get_count("exec_inline_pairs", "with-locals") >= 5 && rep.get_count("exec_inline_pairs", "no-locals") >= 5, "exec-inline-pairs-with-and-without-locals");
+    rep.floor(rep.get_count("call_leaves", "inside-exec-of-imported-procedure") >= 20, "calls-inside-exec-of-imported-procedures");
     rep.floor(rep.get_count("real_outcome", "ok") >= 50, "at-least-50-successful-executions");
     rep.floor(rep.get_count("air_monitored", "trace") >= 1, "air-monitor-sampled");
     rep
